@@ -113,9 +113,9 @@ func oneTree(o *opts, r *rng, s *summary, i int, sc treeScenario, distinct map[s
 	must(os.MkdirAll(filepath.Join(p.Root, "sub", "deep"), 0o755))
 	var pool [][]byte
 	var art *Node
-	to := treeOpts{maxDepth: 2, maxFan: 4, hostile: true, allowEmptyDir: true, siblings: true}
+	to := treeOpts{maxDepth: 2, maxFan: 4, hostile: true, allowEmptyDir: true, siblings: true, cacheNames: true}
 	if o.tier == "thorough" && r.chance(1, 4) {
-		to = treeOpts{maxDepth: 4, maxFan: 7, hostile: true, allowEmptyDir: true, siblings: true}
+		to = treeOpts{maxDepth: 4, maxFan: 7, hostile: true, allowEmptyDir: true, siblings: true, cacheNames: true}
 	}
 	switch sc.kind {
 	case "file":
@@ -171,9 +171,24 @@ func oneTree(o *opts, r *rng, s *summary, i int, sc treeScenario, distinct map[s
 	s.count(fmt.Sprintf("commit-copy:%v checkout-copy:%v", sc.commitCp, sc.coCp))
 	s.count("cwd:" + sc.cwd)
 	s.count(fmt.Sprintf("depth:%d", art.depth()))
+	// two names for one inode (hard links) inside a tracked directory: two entries with equal bytes as
+	// far as the property goes. (The model has no inodes - after a link commit the second name stays
+	// a regular file on the object's inode - so the commit is judged by the statements only: obs 9.)
+	hardlinked := sc.kind == "dir" && !sc.invalid && !sc.foreign && r.chance(1, 4)
+	if hardlinked {
+		b := append([]byte("one inode, two names "), r.bytes(12)...)
+		art.set("hl_first.bin", nFile(b))
+		art.set("hl_nest", nDir(Ent{"hl_second.bin", nFile(b)}))
+		art.sortEnts()
+		s.count("hard-linked-pair")
+	}
 	abs := filepath.Join(p.Root, sc.artPath)
 	must(os.MkdirAll(filepath.Dir(abs), 0o755))
 	materialize(abs, art, p.CacheDir)
+	if hardlinked {
+		must(os.Remove(filepath.Join(abs, "hl_nest", "hl_second.bin")))
+		must(os.Link(filepath.Join(abs, "hl_first.bin"), filepath.Join(abs, "hl_nest", "hl_second.bin")))
+	}
 	rec := &StageRec{Out: []Art{{Path: sc.artPath, IsDir: sc.kind != "file", NoRec: sc.kind == "norec"}}}
 	p.writeStage("s.yaml", rec)
 	stages := []string{"s.yaml"}
@@ -198,6 +213,10 @@ func oneTree(o *opts, r *rng, s *summary, i int, sc treeScenario, distinct map[s
 		if sc.foreign && sc.kind != "file" {
 			t.Info["link_to_external_regular_file"] = true
 		}
+		if hardlinked && t.Cmd.Kind == "commit" {
+			t.Obs = append(t.Obs, 9)
+			t.Info["hard_linked_pair"] = true
+		}
 		ts = append(ts, t)
 		return t
 	}
@@ -212,6 +231,7 @@ func oneTree(o *opts, r *rng, s *summary, i int, sc treeScenario, distinct map[s
 	}
 	t, w = p.do(Cmd{Kind: "commit", Copy: sc.commitCp, Cwd: sc.cwd}, nil, cspecs, ref, w)
 	info(t, "commit")
+
 	if !t.OK {
 		return ts
 	}
